@@ -122,6 +122,7 @@ struct Shared {
     std::atomic<uint64_t> nsamples;
     std::atomic<uint64_t> harness_errors;
     std::atomic<uint64_t> ignored_semantic;
+    std::atomic<uint64_t> killed_workers;
     char samples[NSAMPLES][512];
     char known_lines[8][512];
     std::atomic<uint64_t> known_kinds;
@@ -317,6 +318,13 @@ struct Run {
             auto it = pids.find(p); if (it == pids.end()) continue;
             int wid = it->second; pids.erase(it);
             bool crashed = WIFSIGNALED(st) || (WIFEXITED(st) && WEXITSTATUS(st) != 0);
+            if (WIFSIGNALED(st) && WTERMSIG(st) == SIGKILL) {
+                // killed from outside (out-of-memory killer, operator): a resource limit of the exploration, not a verdict about the code
+                sh->capped.store(1); sh->killed_workers.fetch_add(1);
+                fprintf(stderr, "WARNING: worker killed by SIGKILL (resource limit) while executing: %.300s\n", sh->slot[wid]);
+                if (sh->next_task.load() < ntasks) spawn(wid);
+                continue;
+            }
             if (crashed) {
                 std::string c = sh->slot[wid];
                 char what[128];
@@ -371,7 +379,7 @@ struct Run {
             if (first) fprintf(f, "\"(none)\"");
             fprintf(f, "]\n },\n \"assumptions\": [");
             for (size_t i = 0; i < e.assumptions.size(); ++i) fprintf(f, "%s\"%s\"", i ? ", " : "", json_escape(e.assumptions[i]).c_str());
-            fprintf(f, "],\n \"wall_s\": %.2f,\n \"violations\": %" PRIu64 ",\n \"known_finding_hits\": %" PRIu64 ",\n \"harness_errors\": %" PRIu64 ",\n \"semantic_mismatches_ignored_in_memory_only_mode\": %" PRIu64 "\n}\n", wall, viol, known, herr, sh->ignored_semantic.load());
+            fprintf(f, "],\n \"wall_s\": %.2f,\n \"violations\": %" PRIu64 ",\n \"known_finding_hits\": %" PRIu64 ",\n \"harness_errors\": %" PRIu64 ",\n \"semantic_mismatches_ignored_in_memory_only_mode\": %" PRIu64 ",\n \"workers_killed_by_resource_limits\": %" PRIu64 "\n}\n", wall, viol, known, herr, sh->ignored_semantic.load(), sh->killed_workers.load());
             fclose(f);
             rename((path + ".tmp").c_str(), path.c_str());
         }
